@@ -187,10 +187,14 @@ def contracts(c, args, ctx):
         if not (isinstance(src, tuple) and src[0] == "to_bytes"):
             raise core.NotEncodable("base64 input is not the value's to_bytes()")
         return B64(src[1])
-    m = re.match(r"<(i64|u64|i32|u32) as ToString>::to_string", c)
-    if m:
+    m = re.match(r"<(i64|u64|i32|u32|T) as ToString>::to_string", c)
+    if m and (m.group(1) != "T" or (is_expr(deref(args[0])) and is_bv(deref(args[0])))):
         return Dec(deref(args[0]))
     m = re.match(r"<i32 as NumCast>::from::<([iu])(\d+)>", c)
+    if not m and c == "<i32 as NumCast>::from::<T>":
+        # generic helper: T is the integer type the enclosing function was instantiated with
+        prim = [g for frame in reversed(core.GENERICS) for g in frame if re.fullmatch(r"[iu](8|16|32|64)", g)]
+        m = re.match(r"([iu])(\d+)", prim[0]) if prim else None
     if m:
         v = args[0]
         bits, signed = int(m.group(2)), m.group(1) == "i"
